@@ -122,6 +122,7 @@ fn generate(rng: &mut Rng) -> ConnScenario {
         wplan: vec![],
         cap_ns: secs(1200),
         prelude: vec![],
+        growth: None,
     }
 }
 
